@@ -155,6 +155,9 @@ func cmdVerify(args []string) int {
 	for _, b := range w.checkImmutables() {
 		fmt.Println("IMMUTABLE-VIOLATION:", b)
 	}
+	for _, b := range w.checkClosed() {
+		fmt.Println("CLOSED-VIOLATION:", b)
+	}
 	fmt.Printf("loaded in %.1fs: %d contracts, %d spec funcs, %d lemmas\n", time.Since(t0).Seconds(), len(w.contracts), len(w.specFuncs), len(w.lemmas))
 	for _, m := range w.missing {
 		fmt.Println("MISSING:", m)
